@@ -571,23 +571,98 @@ func ReplacePredicateVariables(query parser.Query) string {
 	}
 
 	for _, invokedPredicate := range query.PredicateInvocation {
-		predicateExpression := invokedPredicate.PredicateName + "("
-		for i, param := range invokedPredicate.Parameter {
-			predicateExpression += param.Name + ","
-			for _, entity := range query.SelectList {
-				if entity.Alias == param.Name {
-					matchedPredicate := invokedPredicate.Predicate
-					invokedPredicate.Predicate.Body = strings.ReplaceAll(invokedPredicate.Predicate.Body, matchedPredicate.Parameter[i].Name, entity.Alias)
-				}
-			}
+		matchedPredicate := invokedPredicate.Predicate
+		if matchedPredicate.PredicateName == "" || len(matchedPredicate.Parameter) != len(invokedPredicate.Parameter) {
+			// no declaration matches this call: leave it in place for the evaluator to report
+			continue
 		}
-		// remove the last comma
-		predicateExpression = predicateExpression[:len(predicateExpression)-1]
-		predicateExpression += ")"
-		invokedPredicate.Predicate.Body = "(" + invokedPredicate.Predicate.Body + ")"
-		expression = strings.ReplaceAll(expression, predicateExpression, invokedPredicate.Predicate.Body)
+		arguments := make([]string, 0, len(invokedPredicate.Parameter))
+		renaming := make(map[string]string, len(invokedPredicate.Parameter))
+		for i, param := range invokedPredicate.Parameter {
+			arguments = append(arguments, param.Name)
+			renaming[matchedPredicate.Parameter[i].Name] = param.Name
+		}
+		call := "(" + strings.Join(arguments, ",") + ")"
+		body := "(" + renameIdentifiers(matchedPredicate.Body, renaming) + ")"
+		expression = replaceCall(expression, invokedPredicate.PredicateName, call, body)
 	}
 	return expression
+}
+
+// renameIdentifiers renames, simultaneously, the identifiers of expression that are keys of
+// renaming. Only whole identifiers outside string literals are renamed, never the member that
+// follows a '.' (a parameter called "m" must not rewrite "getName").
+func renameIdentifiers(expression string, renaming map[string]string) string {
+	return rewriteIdentifiers(expression, func(identifier string, member bool, _ string) (string, int) {
+		if replacement, ok := renaming[identifier]; ok && !member {
+			return replacement, 0
+		}
+		return identifier, 0
+	})
+}
+
+// replaceCall replaces every call name+arguments (arguments rendered as "(a,b)") by body.
+func replaceCall(expression, name, arguments, body string) string {
+	return rewriteIdentifiers(expression, func(identifier string, member bool, rest string) (string, int) {
+		if identifier == name && !member && strings.HasPrefix(rest, arguments) {
+			return body, len(arguments)
+		}
+		return identifier, 0
+	})
+}
+
+// rewriteIdentifiers copies expression, passing every identifier outside a string literal to
+// rewrite together with whether it follows a '.' and the text after it; rewrite returns the
+// replacement and how much of the following text the replacement consumes.
+func rewriteIdentifiers(expression string, rewrite func(identifier string, member bool, rest string) (string, int)) string {
+	isLetter := func(c byte) bool { return c == '_' || (c >= 'a' && c <= 'z') || (c >= 'A' && c <= 'Z') }
+	isDigit := func(c byte) bool { return c >= '0' && c <= '9' }
+	var result strings.Builder
+	member := false
+	for i := 0; i < len(expression); {
+		c := expression[i]
+		switch {
+		case c == '"':
+			end := i + 1
+			for end < len(expression) && expression[end] != '"' {
+				if expression[end] == '\\' {
+					end++
+				}
+				end++
+			}
+			if end < len(expression) {
+				end++ // closing quote
+			} else {
+				end = len(expression)
+			}
+			result.WriteString(expression[i:end])
+			i = end
+			member = false
+		case isLetter(c):
+			end := i + 1
+			for end < len(expression) && (isLetter(expression[end]) || isDigit(expression[end])) {
+				end++
+			}
+			replacement, consumed := rewrite(expression[i:end], member, expression[end:])
+			result.WriteString(replacement)
+			i = end + consumed
+			member = false
+		case isDigit(c):
+			// a number: its digits are not the start of an identifier
+			end := i + 1
+			for end < len(expression) && isDigit(expression[end]) {
+				end++
+			}
+			result.WriteString(expression[i:end])
+			i = end
+			member = false
+		default:
+			result.WriteByte(c)
+			member = c == '.'
+			i++
+		}
+	}
+	return result.String()
 }
 
 func FilterEntities(node []*Node, query parser.Query) bool {
